@@ -359,11 +359,11 @@ impl<T: Payload> Scn<T> {
             self.main.log[*k].reg_t = Some(*t);
         }
         events.append(&mut self.main.log);
-        if T::UNIQUE {
+        if T::TRACKED {
             oracles::resolve_consumed(&mut events, ledger());
         }
         let mut viols = std::mem::take(&mut self.viols);
-        let h = Hist { ev: &events, cap: self.cap, s0: self.s0, r0: self.r0, unique: T::UNIQUE };
+        let h = Hist { ev: &events, cap: self.cap, s0: self.s0, r0: self.r0, unique: T::TRACKED };
         for v in oracles::check_all(&h, ledger(), obs) {
             viols.push((v.prop.to_string(), v.msg));
         }
@@ -371,7 +371,7 @@ impl<T: Payload> Scn<T> {
             let mut m = RefChan::new(self.cap);
             m.sc = self.s0;
             m.rc = self.r0;
-            let mut lin = Lin::new(&events, lin_budget, T::UNIQUE);
+            let mut lin = Lin::new(&events, lin_budget, T::TRACKED);
             match lin.check(m) {
                 LinResult::Ok { states } => *lin_states += states,
                 LinResult::Inconclusive { states } => {
